@@ -138,6 +138,7 @@ type CredSpec struct {
 	Fail   bool `json:"fail,omitempty"`
 	MD     []KV `json:"md,omitempty"`
 	DelayN int64 `json:"delay_ns,omitempty"` // virtual time the credential lookup takes (token refresh)
+	Canon  bool  `json:"canon,omitempty"`    // the credential spells its keys like HTTP headers ("Authorization")
 }
 
 type KV struct {
